@@ -79,12 +79,14 @@ theorem skipUsed_free (ns : NsF) (b : String) (n : Nat) :
         obtain ⟨i, hi, rfl⟩ := hx
         exact used_iff_mem.mp (hall' i (by omega))
       have hnodup : cand.Nodup := by
-        refine (List.nodup_map_iff_inj_on (List.nodup_range)).mpr ?_
-        intro i _ j _ hij
-        have := (suffixed_inj_pos (by omega) (by omega) hij).2
+        simp only [cand, List.Nodup, List.pairwise_map]
+        refine List.Pairwise.imp ?_ (List.nodup_range (n := ns.counts.length + 2))
+        intro i j hij heq
+        have := (suffixed_inj_pos (by omega) (by omega) heq).2
         omega
       have hlen := (List.subperm_of_subset hnodup hsub).length_le
       simp [cand] at hlen
+      omega
   · intro h0
     subst h0
     simp [n', skipUsed]
@@ -118,6 +120,14 @@ theorem InvF.init : InvF kw base (NsF.init kw) where
     intro k hk
     exact used_iff_mem.mpr (by simp only [NsF.init, List.map_map, List.mem_map]; exact ⟨k, hk, rfl⟩)
   not_kw := by intro s n h; simp [NsF.init] at h
+
+theorem lookup_cons_sig (t s : SigId) (v : Nat) (l : List (SigId × Nat)) :
+    ((s, v) :: l).lookup t = if t = s then some v else l.lookup t := by
+  rw [List.lookup_cons]
+  by_cases h : t = s
+  · subst h; simp
+  · have : (t == s) = false := by simpa using h
+    simp [this, h]
 
 theorem getNameFixed_named {ns : NsF} {b : String} {s : SigId} {n : Nat} (h : ns.sigs.lookup s = some n) :
     getNameFixed ns b s = (ns, suffixed b n) := by
@@ -176,10 +186,7 @@ theorem InvF.step {ns : NsF} (h : InvF kw base ns) (s : SigId) :
     have hlook : ∀ t, (getNameFixed ns (base s) s).1.sigs.lookup t =
         if t = s then some (freshNum ns (base s)) else ns.sigs.lookup t := by
       intro t
-      rw [hsigs, List.lookup_cons]
-      by_cases hts : t = s
-      · simp [hts]
-      · simp [hts]
+      rw [hsigs, lookup_cons_sig]
     have hnewused : (getNameFixed ns (base s) s).1.used (suffixed (base s) (freshNum ns (base s))) = true := by
       rw [used_iff_mem, hcounts]
       by_cases hp : freshNum ns (base s) > 0
@@ -260,7 +267,7 @@ theorem getNameFixed_keeps {ns : NsF} {b : String} {s t : SigId} {n : Nat} (h : 
   cases hs : ns.sigs.lookup s with
   | some m => simp [getNameFixed_named hs, h]
   | none =>
-    rw [(getNameFixed_fresh hs).2.1, List.lookup_cons]
+    rw [(getNameFixed_fresh hs).2.1, lookup_cons_sig]
     have : t ≠ s := by rintro rfl; simp [hs] at h
     simp [this, h]
 
